@@ -185,6 +185,8 @@ func runC10(r *Run) {
 	}
 	docs := makeDocs(append(Docs(K, stdScalars, stdKeys), mustDoc(`{"a":{"a":1,"b":1},"b":1}`, "float64"), mustDoc(`[{"a":[1,2],"b":1},{"a":1,"b":2}]`, "float64"),
 		mustDoc(`{"a":[{"a":1}],"b":[1,"x"]}`, "float64"), mustDoc(`{"a":[1,"x"],"b":2}`, "float64"), mustDoc(`[[1,"x"],["x",1],{"a":["x",1]}]`, "float64")))
+	docs = append(docs, makeDocs([]any{mustDoc(`{"a":["x",1],"b":2}`, "float64"), mustDoc(`{"a":["1","x"],"b":2}`, "float64"), mustDoc(`[{"a":[1,"x"],"b":2},{"a":["x",1],"b":0}]`, "float64"),
+		mustDoc(`[[1,5],[0,7],3]`, "float64"), mustDoc(`[[[1,5]],[1,[2,3]]]`, "float64")})...)
 	conds := condPool(pairN)
 	prefixes := c10Prefixes()
 	r.Bound("max_doc_nodes", K)
@@ -240,6 +242,14 @@ func runC10(r *Run) {
 		eCmp("==", eCur(), eVar("x", sAnyArray())), eCmp("==", eCur(), eVar("x", sKey("a"))), eExists(eVar("x", sFilter(eCmp("==", eCur(), eInt(1)))))} {
 		vconds = append(vconds, cnd, eNot(cnd), &Expr{K: KIsUnknown, A: cnd}, eAnd(cnd, eCmp("==", eCur(), eCur())), eOr(cnd, eExists(eCur(sKey("b")))))
 	}
+	// a right operand that delivers an item and fails on a later one (and the mirror image): unknown,
+	// whichever element comes first
+	for _, m := range []string{"integer", "double"} {
+		yf := eCur(sKey("a"), sAnyArray(), sMethod(m))
+		for _, cnd := range []*Expr{eCmp("==", eInt(1), yf), eCmp("==", yf, eInt(1)), eCmp(">", eCur(sKey("b")), yf), eCmp("<", yf, eCur(sKey("b"))), eCmp("==", yf, yf)} {
+			vconds = append(vconds, cnd, eNot(cnd), eIsUnknown(cnd), eOr(cnd, eCmp("==", eCur(sKey("b")), eInt(3))))
+		}
+	}
 	var vpaths []Path
 	for _, cnd := range vconds {
 		for _, pf := range prefixes {
@@ -249,6 +259,22 @@ func runC10(r *Run) {
 	r.Bound("variable_condition_paths", len(vpaths))
 	refSweep(r, "filter-vs-reference", vpaths, docs, []sweepCfg{{Num: "float64", Vars: map[string]string{"x": "s:a"}}, {Num: "float64", Vars: map[string]string{"x": "i:1"}},
 		{Num: "float64", Vars: map[string]string{"x": `j:["a",1]`}}, {Num: "float64", Vars: map[string]string{"x": `j:{"a":1}`}}, {Num: "float64", Vars: map[string]string{"x": `j:[["a"],"b"]`}}})
+	// two consecutive filters against the reference, both modes (lax: an array that survives the first
+	// filter is unwrapped again by the second)
+	var cpaths []Path
+	cbase := condBase()
+	for i, c1 := range cbase {
+		for j, c2 := range cbase {
+			if c1.hard || c2.hard || (!r.Thorough() && i >= 21 && j >= 21) {
+				continue
+			}
+			for _, pf := range []*Expr{eRoot(), eRoot(sAnyArray())} {
+				cpaths = append(cpaths, Path{E: pf.withSteps(sFilter(c1.e), sFilter(c2.e))}, Path{Strict: true, E: pf.withSteps(sFilter(c1.e), sFilter(c2.e))})
+			}
+		}
+	}
+	r.Bound("consecutive_filter_paths", len(cpaths))
+	refSweep(r, "filter-vs-reference", cpaths, docs, []sweepCfg{{Num: "float64"}})
 	// consecutive filters (strict), hard-error-free conditions
 	base := condBase()
 	var soft []cond
